@@ -293,11 +293,13 @@ func (c *codecV2) EncodeRequest(req *tikvrpc.Request) (*tikvrpc.Request, error) 
 		r := *req.BatchCop()
 		r.Regions = c.encodeRegionInfos(r.Regions)
 		r.TableRegions = c.encodeTableRegions(r.TableRegions)
+		r.TableShardInfos = c.encodeTableShardInfos(r.TableShardInfos)
 		req.Req = &r
 	case tikvrpc.CmdMPPTask:
 		r := *req.DispatchMPPTask()
 		r.Regions = c.encodeRegionInfos(r.Regions)
 		r.TableRegions = c.encodeTableRegions(r.TableRegions)
+		r.TableShardInfos = c.encodeTableShardInfos(r.TableShardInfos)
 		req.Req = &r
 
 	// Other requests.
@@ -317,11 +319,15 @@ func (c *codecV2) EncodeRequest(req *tikvrpc.Request) (*tikvrpc.Request, error) 
 		r := *req.Cop()
 		r.Ranges = c.encodeCopRanges(r.Ranges)
 		r.Tasks = c.encodeStoreBatchTasks(r.Tasks)
+		r.VersionedRanges = c.encodeVersionedRanges(r.VersionedRanges)
+		r.TableShardInfos = c.encodeTableShardInfos(r.TableShardInfos)
 		req.Req = &r
 	case tikvrpc.CmdCopStream:
 		r := *req.Cop()
 		r.Ranges = c.encodeCopRanges(r.Ranges)
 		r.Tasks = c.encodeStoreBatchTasks(r.Tasks)
+		r.VersionedRanges = c.encodeVersionedRanges(r.VersionedRanges)
+		r.TableShardInfos = c.encodeTableShardInfos(r.TableShardInfos)
 		req.Req = &r
 	case tikvrpc.CmdMvccGetByKey:
 		r := *req.MvccGetByKey()
@@ -669,6 +675,16 @@ func (c *codecV2) DecodeResponse(req *tikvrpc.Request, resp *tikvrpc.Response) (
 		if err != nil {
 			return nil, err
 		}
+		for _, b := range r.BatchResponses {
+			b.RegionError, err = c.decodeRegionError(b.RegionError)
+			if err != nil {
+				return nil, err
+			}
+			b.Locked, err = c.decodeLockInfo(b.Locked)
+			if err != nil {
+				return nil, err
+			}
+		}
 	case tikvrpc.CmdCopStream:
 		return nil, errors.New("streaming coprocessor is not supported yet")
 	case tikvrpc.CmdBatchCop, tikvrpc.CmdMPPTask:
@@ -710,6 +726,12 @@ func (c *codecV2) DecodeResponse(req *tikvrpc.Request, resp *tikvrpc.Response) (
 			if err != nil {
 				return nil, err
 			}
+		}
+	case tikvrpc.CmdGetHealthFeedback:
+		r := resp.Resp.(*kvrpcpb.GetHealthFeedbackResponse)
+		r.RegionError, err = c.decodeRegionError(r.RegionError)
+		if err != nil {
+			return nil, err
 		}
 	case tikvrpc.CmdSplitRegion:
 		r := resp.Resp.(*kvrpcpb.SplitRegionResponse)
@@ -967,9 +989,44 @@ func (c *codecV2) encodeStoreBatchTasks(tasks []*coprocessor.StoreBatchTask) []*
 	for _, task := range tasks {
 		t := *task
 		t.Ranges = c.encodeCopRanges(t.Ranges)
+		t.VersionedRanges = c.encodeVersionedRanges(t.VersionedRanges)
 		encodedTasks = append(encodedTasks, &t)
 	}
 	return encodedTasks
+}
+
+func (c *codecV2) encodeVersionedRanges(ranges []*coprocessor.VersionedKeyRange) []*coprocessor.VersionedKeyRange {
+	if ranges == nil {
+		return nil
+	}
+	encoded := make([]*coprocessor.VersionedKeyRange, 0, len(ranges))
+	for _, r := range ranges {
+		v := *r
+		if v.Range != nil {
+			v.Range = c.encodeCopRange(v.Range)
+		}
+		encoded = append(encoded, &v)
+	}
+	return encoded
+}
+
+func (c *codecV2) encodeTableShardInfos(infos []*coprocessor.TableShardInfos) []*coprocessor.TableShardInfos {
+	if infos == nil {
+		return nil
+	}
+	encoded := make([]*coprocessor.TableShardInfos, 0, len(infos))
+	for _, info := range infos {
+		i := *info
+		shards := make([]*coprocessor.ShardInfo, 0, len(info.ShardInfos))
+		for _, shard := range info.ShardInfos {
+			s := *shard
+			s.Ranges = c.encodeCopRanges(shard.Ranges)
+			shards = append(shards, &s)
+		}
+		i.ShardInfos = shards
+		encoded = append(encoded, &i)
+	}
+	return encoded
 }
 
 func (c *codecV2) decodeRegionError(regionError *errorpb.Error) (*errorpb.Error, error) {
@@ -1002,6 +1059,13 @@ func (c *codecV2) decodeRegionError(regionError *errorpb.Error) (*errorpb.Error,
 			decodedRegions = append(decodedRegions, meta)
 		}
 		errInfo.CurrentRegions = decodedRegions
+	}
+
+	if errInfo := regionError.BucketVersionNotMatch; errInfo != nil {
+		errInfo.Keys, err = c.DecodeBucketKeys(errInfo.Keys)
+		if err != nil {
+			return nil, err
+		}
 	}
 
 	return regionError, nil
